@@ -102,7 +102,10 @@ inline void apply_byte_fault(const Op& op, const SchemaShape& sh, const Frame& f
 inline Outcome call_driver(const Driver& d, Req& rq, Res& rs)
 {
     rs.reset();
-    return sim::guarded([&] { d.run(rq, rs); });
+    api_gap_slot() = nullptr;
+    Outcome o = sim::guarded([&] { d.run(rq, rs); });
+    rs.api_gap = api_gap_slot();
+    return o;
 }
 
 // Known findings (status "known" in known_findings.jsonl) arrive as a comma list in
